@@ -7,6 +7,16 @@ from .. import gamma
 ADDWS = {"true": True, "false": False, "str": "yes", "int": 1, "none": None}
 
 
+_SH = {}
+
+
+def _SHARED_HTML(H):
+    """one HTML() object handed to every call that uses it (a module-level constant in user code)"""
+    if H not in _SH:
+        _SH[H] = H.HTML("a b")
+    return _SH[H]
+
+
 def shape_args(i, H):
     """gamma: argument shapes (children, attribute dicts, keyword attributes)."""
     span, HTML = H.tags.span, H.HTML
@@ -26,6 +36,9 @@ def shape_args(i, H):
         # attribute values that mean something to browsers mean nothing to the tag functions
         (("x",), {"href": "u", "target": "_blank", "type": "module", "async_": True, "defer": True, "loading": "lazy", "role": "button"}),
         (({"target": "_blank", "rel": None, "type": "text/css", "method": "post"}, "y"), {"for_": "f", "http_equiv": "refresh", "charset": "x"}),
+        # a lone, already normalised TagList as the only child argument; one HTML() object as the value of two attributes
+        ((H.TagList("only", span("k")),), {}),
+        ((_SHARED_HTML(H), {"class": _SHARED_HTML(H)}), {"class_": "more", "style": _SHARED_HTML(H)}),
     ]
     return shapes[(i - 1) % len(shapes)]
 
@@ -97,6 +110,11 @@ class C19(Prop):
                 kw3["_add_ws"] = ADDWS[c["addws"]]
             t2 = f(*args3, **kw3)
             rec["fresh"] = bool(t2 is not t and not t2.has_class("verif-mark") and "verif-child" not in list(t2.children))
+            # ... and its own child list / attribute values: the caller's argument objects are as they were
+            for a_ in args:
+                if isinstance(a_, H.TagList):
+                    rec["fresh"] = rec["fresh"] and "verif-child" not in list(a_) and t.children is not a_
+            rec["fresh"] = rec["fresh"] and str(_SHARED_HTML(H)) == "a b"
             t.remove_class("verif-mark")
             t.children.pop()
         except Exception:  # noqa
